@@ -159,3 +159,16 @@ Proof.
   unfold attempt_ref. rewrite <- (gsim_attempt (dedup (build d)) g R Hsim false start (hops_of g) rest Hw).
   unfold hops_of. apply dedup_build_walk; assumption.
 Qed.
+
+(* end to end: raw DFA -> modelled construction ~ captured graph -> program parsed from the emitted code *)
+Theorem emitted_code_maximal_munch U d g R p :
+  build_side d = true -> gsim_ok (dedup (build d)) g R = true ->
+  wf_graph g = true -> prog_ok g p = true ->
+  forall start rest, bytes_ok rest -> rest <> [] ->
+  exists off, fst (attempt_prog U p (PositiveMap.cardinal (g_states g)) false start rest)
+              = Acted (scan d (d_start d) rest start None) off.
+Proof.
+  intros Hside Hsim Hwf Hp start rest Hw Hne.
+  rewrite (attempt_prog_is_ref U g p false start rest Hp Hwf Hw).
+  exact (full_construction_correct d g R Hside Hsim start rest Hw Hne).
+Qed.
